@@ -143,7 +143,15 @@ def gen_c17(rng, tier, n):
             if rng.random() < 0.5:
                 lines.append("reg 102 103 103 0 92 0")
             names = names + [101, 102, 103]
+        if lines[0].startswith("errh") and rng.random() < 0.4:
+            # the error handler is installed (or replaced) AFTER the upcasters were registered: a failure is reported to the
+            # handler that is set when it happens
+            first = lines.pop(0)
+            lines.append(first if rng.random() < 0.7 else "errh 1")
+        toggle = rng.randint(1, len(names)) if rng.random() < 0.2 else -1
         for j, t in enumerate(names + [9]):
+            if j == toggle:
+                lines.append("errh %d" % rng.randint(0, 1))
             data = ",".join(str(rng.randint(0, 9)) for _ in range(rng.randint(0, 3))) or "-"
             lines.append("replay %d %d %d %s %d" % (j + 1, 7000 + j, t, data, rng.choice([0, 0, 5, 9])))
         # the same stored event object once more, after the registry changed (a failing step appended, or everything cleared)
